@@ -1,7 +1,7 @@
 """C02 — Python-native bindings dispatch, convert and own objects as C++ would.
 
 specs  PyDispatch.tla (+ PyDispatchMC: enumeration, + PyDispatchEval: evaluation of chosen sets)
-       PyObjects.tla  (+ PyObjectsMC)
+       PyObjects.tla  (+ PyObjectsMC), PyObjectsH.tla (+ PyObjectsHMC)
 
 dispatch  TLC enumerates overload sets step by step (parameter-category tuples, trailing defaults,
           const methods, methods / static functions) and checks on EVERY call tuple of every set that
@@ -23,6 +23,14 @@ objects   TLC enumerates call histories over a class Node (construct, return by 
           reports this_ownership / this_const / identity of every wrapper and the construction /
           destruction counters, compared with the state carried by the spec.  thorough: deeper
           histories by simulation, and everything again with the extension built with ASan.
+helpers   PyObjectsH adds the helper objects the runtime creates on the fly (sequence / mapping
+          property wrappers with and without setter, key views, bound methods, iterators over them)
+          and the references they hold: reference accounting, owner destroyed exactly when the last
+          of {user reference, helpers} is gone.  Replay: after every step the reference count of
+          every owner (relative to its creation), the counters, and read-only probes (len, items,
+          in / index / count, keys / values / items, read-only assignment) on every usable helper
+          with the counter and reference-count deltas each probe causes; includes "keep the helper,
+          drop the owner, use the helper".
 names     classNameFromCppName / methodNameFromCppName / checkKeyword / methodRenameDictionary are
           transcribed below; a library laid out over an identifier grammar is built and dir() of the
           module / classes / nested classes must be exactly the transcribed names; properties,
